@@ -54,9 +54,9 @@ CHECKS = {
     "C15": {
         "level": "exploration",
         "groups": [
-            {"name": "c15", "run": "^TestC15_", "shards": {"quick": 4, "thorough": 16},
+            {"name": "c15", "run": "^TestC15_", "shards": {"quick": 8, "thorough": 16},
              "timeout": {"quick": 600, "thorough": 3000},
-             "checks": ["c15-backoff", "c15-reconnect"]},
+             "checks": ["c15-backoff", "c15-reconnect", "c15-stream-order"]},
         ],
     },
     "C16": {
